@@ -306,6 +306,12 @@ def main():
             elif kr["status"] == "fixed" and kr["still_fails"]:
                 unlisted.append({"kind": "impl-vs-ref", "input": kr.get("detail"), "note": f"fixed finding {kr['id']} fails again",
                                  "finding": kr["id"]})
+    def write_replay_early(name, payload):
+        p = os.path.join(VERIF, "replays", name)
+        with open(p, "w") as f:
+            json.dump(payload, f, indent=1)
+        return p
+
     if spec_bad:
         errors.append(f"reference model disagrees with the reference oracle on {len(spec_bad)} recorded case(s): "
                       + json.dumps(spec_bad[0])[:600])
@@ -318,6 +324,42 @@ def main():
         with open(p, "w") as f:
             json.dump(payload, f, indent=1)
         return p
+
+    # ---- load-sensitivity guard: a disagreement in which one side ended by a TIMEOUT of the harness is replayed alone
+    # before it is reported; it is dropped only if the replay runs to the end and shows no disagreement at all
+    # (a hang or a slow cancellation reproduces on the replay and is reported). Anything else is reported as found.
+    unreproduced = []
+    if unlisted and not replay and prop.get("harness") and os.path.realpath(REPO) == "/repo" and os.path.exists(hbin):
+        kept = []
+        for d in unlisted:
+            txt = (json.dumps(d.get("impl")) + json.dumps(d.get("ref")) + json.dumps(d.get("note"))).lower()
+            if ("timeout" not in txt and not os.environ.get("VERIF_TEST_FORCE_CONFIRM")) or d.get("input") is None or len(unreproduced) >= 20:
+                kept.append(d)
+                continue
+            rp = write_replay_early(f"{stamp}-confirm.json", {"property": pid, "class": d.get("finding") or "in-domain",
+                                                               "input": d.get("input")})
+            cres = os.path.join(VERIF, "evidence", f".{pid}.{os.getpid()}.confirm.json")
+            ok = False
+            try:
+                crc, cout = sh([hbin, "-tier", tier, "-seed", str(seed), "-out", cres, "-replay", rp], cwd=VERIF, env=GOENV,
+                               timeout=1800)
+                cr = json.load(open(cres))
+                again = [x for x in cr.get("disagreements", []) if x["kind"] in ("impl-vs-ref", "impl-vs-model")]
+                ok = crc == 0 and not again and not (cr.get("errors") or []) and cr.get("evaluations", 0) > 0
+            except Exception:
+                ok = False
+            finally:
+                for f in (cres, rp):
+                    if os.path.exists(f):
+                        os.remove(f)
+            if os.environ.get("VERIF_TEST_FORCE_CONFIRM"):
+                print(f"confirm replay: reproduced={not ok}", file=sys.stderr)
+            if ok:
+                unreproduced.append({"input": d.get("input"), "impl": d.get("impl"), "ref": d.get("ref")})
+                log.append("note: a disagreement with a harness timeout did not reproduce when replayed alone; not reported")
+            else:
+                kept.append(d)
+        unlisted = kept
 
     if unlisted:
         # group by class so that each distinct unlisted class is reported once
@@ -356,6 +398,7 @@ def main():
             "traces_validated_against_impl": res.get("evaluations", 0),
             "known_findings_replayed": res.get("known", []),
             "unlisted_disagreements": len(unlisted),
+            "timeouts_not_reproduced_on_replay": unreproduced[:5],
         })
         if res.get("extra"):
             cov["extra"] = res["extra"]
